@@ -161,6 +161,7 @@ def shards(tier):
             if mq == 50:                        # the default threshold of generate_commands: one BAM family only
                 out.append(('defaults', layout, mq))
     out.append(('conformance',))
+    out.append(('hist',))
     # biggest job sets first: better packing on the worker pool
     out.sort(key=lambda s: (0 if s[0] == 'oc' and s[4] == 1 else 1))
     return out
@@ -378,7 +379,93 @@ def _explore_orders(acc, base_case, tier, judge_fn, order_set=None):
     return n, got
 
 
+# ------------------------------------------------------------------------------------------------ histories / several BAMs
+def _renamed_copy(src, dst, suffix):
+    """copy of a BAM in which every cell (SM) gets a suffix: a second library with disjoint cells"""
+    import pysam
+    with pysam.AlignmentFile(src) as f, pysam.AlignmentFile(dst, 'wb', header=f.header) as o:
+        for r in f.fetch(until_eof=True):
+            if r.has_tag('SM'):
+                r.set_tag('SM', r.get_tag('SM') + suffix)
+            o.write(r)
+    pysam.index(dst)
+
+
+def _run_histories(acc, tier):
+    """(a) the BAM at one path is replaced between counting runs of the same process (nothing remembered about a path may be
+    reused); (b) two libraries with disjoint cells counted in one call (as the copy-number caller does): every bin arrives once
+    per file and the cells of both must survive the merge, for every completion order"""
+    from oracles import c12_oracle as O
+    from gen import c12_run
+    work = tempfile.mkdtemp(prefix='c12h_', dir='/dev/shm')
+    try:
+        specA, specB = ('core', 100, 50, 0), ('core', 100, 50, 1)
+        P = os.path.join(work, 'reused.bam')
+        seq = [specA, specB, specA]
+        for step, spec in enumerate(seq):
+            shutil.copy(_bam(spec), P)
+            shutil.copy(_bam(spec) + '.bai', P + '.bai')
+            for bpj in (1, 3):
+                case = {'fn': 'obtain_counts', 'bam': list(spec), 'bin_size': 50, 'bins_per_job': bpj, 'min_mq': 50,
+                        'max_fragment_size': 100, 'key_tags': None, 'kwargs': None, 'threads': 4, 'order': None,
+                        'history': f'path-reused-step{step}'}
+                with _scheduled(None) as sch:
+                    try:
+                        got, err = c12_run.call(case, P), None
+                    except bind.HarnessError:
+                        raise
+                    except Exception as e:
+                        got, err = None, e
+                viols = [(s_.replace('obtain_counts', 'obtain_counts:bam-replaced-at-same-path', 1), d) for s_, d in judge(case, got, err)]
+                _report(acc, case, viols, len(sch.log[0]['order']) if sch.log else 0, True, f'history:path-reused:step{step}')
+        # (b) two libraries
+        lib2 = os.path.join(work, 'lib2.bam')
+        _renamed_copy(_bam(specA), lib2, '_L2')
+        for bpj in (1, 2, 5):
+            base = {'fn': 'obtain_counts', 'bam': list(specA), 'bin_size': 50, 'bins_per_job': bpj, 'min_mq': 50,
+                    'max_fragment_size': 100, 'key_tags': None, 'kwargs': None, 'threads': 4, 'history': 'two-libraries'}
+            want1, total1, _ = _expected(specA, 50, 50, None)
+            want = {k: dict(v) for k, v in want1.items()}
+            for k, row in want1.items():
+                for cell, n in row.items():
+                    want[k][cell + '_L2'] = n
+            n_jobs = None
+            orders = [None]
+            tried = 0
+            while orders:
+                order = orders.pop(0)
+                case = dict(base, order=order)
+                with _scheduled(order) as sch:
+                    try:
+                        got, err = c12_run.call(case, [_bam(specA), lib2]), None
+                    except bind.HarnessError:
+                        raise
+                    except Exception as e:
+                        got, err = None, e
+                if n_jobs is None and sch.log:
+                    n_jobs = sch.log[0]['n']
+                    from mc.sched import near_orders
+                    orders = [list(o) for o in near_orders(n_jobs, 1) if list(o) != list(range(n_jobs))][:12] + [list(reversed(range(n_jobs)))]
+                viols = []
+                if err is not None:
+                    viols.append((f'obtain_counts:two-libraries:exception:{type(err).__name__}', repr(err)))
+                else:
+                    matrix, bad = _canon_to_matrix(got, 0)
+                    under, over = O.diff(matrix, want)
+                    if under or over:
+                        clause = 'undercount' if under and not over else 'overcount' if over and not under else 'miscount'
+                        viols.append((f'obtain_counts:two-libraries:{clause}',
+                                      {'expected_total': 2 * total1, 'got_total': O.total(matrix), 'under': under[:3], 'over': over[:3]}))
+                _report(acc, case, viols, n_jobs or 0, True, f'history:two-libraries:bpj={bpj}')
+                tried += 1
+    finally:
+        shutil.rmtree(work, ignore_errors=True)
+
+
 def run_shard(shard, tier, acc):
+    if shard[0] == 'hist':
+        _run_histories(acc, tier)
+        return
     kind = shard[0]
     b = bounds(tier)
     if kind == 'oc':
